@@ -25,6 +25,16 @@ type View struct {
 	// Inapplicable broadcasts (C01, sequential histories)
 	Problems []string
 	Applied  int
+	// attachments in a handed module state whose entity the view does not hold
+	OrphanAttachments int
+	// Mods: module letters loaded for this client ("" = unknown: module relays are applied as they come).
+	Mods               string
+	haveVikja, haveOdal bool
+	// Relays received after the join but before the corresponding state
+	// message: they are applied on top of the snapshot when it arrives (the
+	// server adds the joiner to the recipient set before it takes the snapshot,
+	// so such relays are either already in the snapshot or newer than it).
+	pendCore, pendVikja, pendOdal []*d.Event
 }
 
 func NewView(conn int) *View {
@@ -40,6 +50,8 @@ func (v *View) Reset(pid uint32) {
 	v.Participants[pid] = true
 	v.Subscribed = map[uint32]bool{}
 	v.Stale = map[uint32]bool{}
+	v.haveVikja, v.haveOdal = false, false
+	v.pendCore, v.pendVikja, v.pendOdal = nil, nil, nil
 }
 
 func (v *View) Leave() {
@@ -60,6 +72,27 @@ func (v *View) Apply(e *d.Event, strict bool) {
 		return
 	}
 	v.Applied++
+	switch e.M.(type) {
+	case *hagallpb.SessionState, *vikjapb.State, *odalpb.State, *hagallpb.EntityComponentListResponse:
+	case *vikjapb.EntityActionBroadcast:
+		if !v.haveVikja && has(v.Mods, 'v') {
+			v.pendVikja = append(v.pendVikja, e)
+			return
+		}
+	case *odalpb.AssetInstanceAddBroadcast:
+		if !v.haveOdal && has(v.Mods, 'o') {
+			v.pendOdal = append(v.pendOdal, e)
+			return
+		}
+	default:
+		if !v.HaveState && v.Mods != "-" {
+			v.pendCore = append(v.pendCore, e)
+			if len(v.pendCore) > 100000 {
+				v.pendCore = nil
+			}
+			return
+		}
+	}
 	switch m := e.M.(type) {
 	case *hagallpb.SessionState:
 		// state handed on joining; relays that arrived between the join
@@ -80,15 +113,43 @@ func (v *View) Apply(e *d.Event, strict bool) {
 		v.State = st
 		v.Subscribed, v.Stale = keepSubs, keepStale
 		v.HaveState = true
+		pend := v.pendCore
+		v.pendCore = nil
+		for _, pe := range pend {
+			v.Apply(pe, false)
+		}
 	case *vikjapb.State:
 		v.Actions = map[ActKey]Action{}
 		for _, a := range m.EntityActions {
+			// the module snapshot is not atomic with the core state: an
+			// attachment to an entity the view does not hold (its delete relay
+			// was received before this snapshot) is dropped
+			if _, ok := v.Entities[a.EntityId]; !ok && v.HaveState {
+				v.OrphanAttachments++
+				continue
+			}
 			v.Actions[ActKey{a.EntityId, a.Name}] = actionFromPB(a)
+		}
+		v.haveVikja = true
+		pend := v.pendVikja
+		v.pendVikja = nil
+		for _, pe := range pend {
+			v.Apply(pe, false)
 		}
 	case *odalpb.State:
 		v.Assets = map[uint32]Asset{}
 		for _, a := range m.AssetInstances {
+			if _, ok := v.Entities[a.EntityId]; !ok && v.HaveState {
+				v.OrphanAttachments++
+				continue
+			}
 			v.Assets[a.EntityId] = Asset{a.Id, a.AssetId, a.ParticipantId, a.EntityId}
+		}
+		v.haveOdal = true
+		pend := v.pendOdal
+		v.pendOdal = nil
+		for _, pe := range pend {
+			v.Apply(pe, false)
 		}
 	case *hagallpb.ParticipantJoinBroadcast:
 		if strict && v.Participants[m.ParticipantId] {
@@ -158,12 +219,18 @@ func (v *View) Apply(e *d.Event, strict bool) {
 		}
 		delete(v.Comps, k)
 	case *vikjapb.EntityActionBroadcast:
+		// attachments exist on existing entities only: a relay for an entity the
+		// view does not (or no longer) hold is older than that entity's removal
 		if a := m.EntityAction; a != nil {
-			v.Actions[ActKey{a.EntityId, a.Name}] = actionFromPB(a)
+			if _, ok := v.Entities[a.EntityId]; ok || !v.HaveState {
+				v.Actions[ActKey{a.EntityId, a.Name}] = actionFromPB(a)
+			}
 		}
 	case *odalpb.AssetInstanceAddBroadcast:
 		if a := m.AssetInstance; a != nil {
-			v.Assets[a.EntityId] = Asset{a.Id, a.AssetId, a.ParticipantId, a.EntityId}
+			if _, ok := v.Entities[a.EntityId]; ok || !v.HaveState {
+				v.Assets[a.EntityId] = Asset{a.Id, a.AssetId, a.ParticipantId, a.EntityId}
+			}
 		}
 	case *hagallpb.EntityComponentListResponse:
 		// handled by ApplyOwn (needs the type id of the request)
